@@ -271,7 +271,7 @@ PROPS["C01"] = {
 }
 PROPS["C06"] = {
     "lean": ["C06"],
-    "required": ["C06.c06_tracked_plus_asked_within_limit", "C06.c06_assign_request_fits", "C06.c06_create_only_without_eni",
+    "required": ["C06.c06_no_whole_dispose_while_request_waits", "C06.c06_tracked_plus_asked_within_limit", "C06.c06_assign_request_fits", "C06.c06_create_only_without_eni",
                  "C06.c06_created_goes_to_empty_slot", "C06.c06_marked_is_idle_and_secondary", "C06.c06_unassign_batch",
                  "C06.c06_dispose_marks_only_idle", "C06.c06_delete_only_unused", "C06.c06_whole_eni_only_unused"],
     "rule": _PW_RULE + " Every cloud call's arguments are also checked at call time against the fake cloud's state and the harness's reply ledger (quota, batch, in-use, primary).",
